@@ -270,7 +270,7 @@ def check(case: Dict[str, Any]) -> Outcome:
 
 # ---------------------------------------------------------------------------------------
 
-T_CHOICES = [30, 100, 120, 200]
+T_CHOICES = [30, 100, 120, 200, 200, 450, 700]  # long waits too: whatever the polling does after several idle intervals must still honour "within one interval"
 
 
 def _grid(Tcs: int, anchors: List[int]):
@@ -357,8 +357,16 @@ def job_grid(col: Collector, seed: int, tier: str, shard: int, nshards: int) -> 
                 if bgk == "none":
                     case = dict(case, follow_up=True, progress=case["progress"] + [[125, "right", ["progress"], [10, None, None]], [150, "right", ["progress", "total"], [11, 12, None]]])
                     col.record(case, check(case))
+    # a long, quiet wait: cancel placed after k idle poll intervals, k = 0..11, at three offsets inside the interval
+    for k in range(12):
+        for off in (1, 20, 49):
+            i += 1
+            if i % nshards != shard:
+                continue
+            case = {"T": 700, "tc": k * 50 + off, "tr": None, "bg": {"kind": "none"}, "progress": [], "cb_raise": [], "use_cb": False, "use_token": True}
+            col.record(case, check(case))
     if shard == 0:
-        col.exhaustive_parts.append("all (cancel, response) placements over {never, before-call} U 11 grid instants with T=1.2 s x {no traffic, flood, burst right after the cancel}")
+        col.exhaustive_parts.append("all (cancel, response) placements over {never, before-call} U 11 grid instants with T=1.2 s x {no traffic, flood, burst right after the cancel}; quiet 7 s waits with the cancel after 0..11 idle poll intervals x 3 offsets")
 
 
 JOBS = {"hyp": job_hyp, "grid": job_grid}
